@@ -13,7 +13,7 @@ def inst(pkg, harness, params=None, **kw):
 CHECKS = {}
 
 # ---------------------------------------------------------------- C20
-_q_quick = [inst("internal/container", "VHQueueStep", {"C": c}, must_reach=["enqueue", "size"], requires="queue-representation") for c in (0, 2, 3, 8, 16)]
+_q_quick = [inst("internal/container", "VHQueueStep", {"C": c}, must_reach=["enqueue", "size"], requires="queue-representation") for c in (0, 2, 3, 8, 16, 32)]
 _q_thor = [inst("internal/container", "VHQueueStep", {"C": c}, must_reach=["enqueue", "size"], workers=2, requires="queue-representation") for c in [0] + list(range(2, 41)) + [64]]
 # calibration of the step harness's reading of the representation (see VHQueueCalib); its verdict gates the instances above
 _q_calib = [inst("internal/container", "VHQueueCalib", {"A": 10, "P": 2}, workers=4, calibrates="queue-representation")]
@@ -92,8 +92,10 @@ CHECKS["C03"] = dict(
           "the assignment table; failure leaves the store unchanged; one name never under two types; a host write is what is read next.",
     note="Host storers violating the Storer contract are outside the claim. Strings bounded to 2 bytes; doubles unrestricted.",
     instances=dict(
-        quick=[inst("root", "VHSetStatement", solver="cvc5", workers=12, must_reach=["failed", "succeeded", "host-write", "second-assignment"])],
-        thorough=[inst("root", "VHSetStatement", solver="cvc5", workers=16, must_reach=["failed", "succeeded", "host-write", "second-assignment"])]),
+        quick=[inst("root", "VHSetStatement", solver="cvc5", workers=12, must_reach=["failed", "succeeded", "host-write", "second-assignment"]),
+               inst("root", "VHStorerOps", {"OPS": 4}, solver="z3", workers=8, must_reach=["ops", "cleared"])],
+        thorough=[inst("root", "VHSetStatement", solver="cvc5", workers=16, must_reach=["failed", "succeeded", "host-write", "second-assignment"]),
+                  inst("root", "VHStorerOps", {"OPS": 5}, solver="z3", workers=16, must_reach=["ops", "cleared"])]),
     assumptions=["two variables v, w each absent or of any type; strings of 0..2 arbitrary bytes; doubles unrestricted; operator code any int",
                  "host storers that violate the Storer contract are outside the claim"],
 )
@@ -236,6 +238,7 @@ CHECKS["C07"] = dict(
         quick=[_world("VHSnapshotAtJump", DEPTH=1, QLEN=1, HEAD=100, VARSNAP=1, must_reach=["jumped"]),
                _world("VHRestore", DEPTH=1, QLEN=1, CMDCHAN=1, VISCFG=1, must_reach=["restored", "unknown-node", "jump-after-restore", "visit-functions-after-restore"]),
                _world("VHRestoreHostBuilt", DEPTH=1, QLEN=1, VISCFG=1, LAST=0, must_reach=["host-built", "jump-after-host-built-restore"]),
+               inst("root", "VHStorerOps", {"OPS": 4}, solver="z3", workers=8, must_reach=["ops", "cleared"]),  # the default store snapshots read and restores clear
                _world("VHRestoreReplay", DEPTH=0, LAST=0, VISCFG=1, STEPS=3, BUDGET=1, JUMPCAT=1, OPTJUMP=1, CMDV=1, VISITCOND=1, must_reach=["entered", "replayed", "same-options", "entering-call-failed"])],
         thorough=[_world("VHRestoreReplay", DEPTH=0, LAST=0, VISCFG=1, STEPS=6, BUDGET=1, JUMPCAT=1, OPTJUMP=1, CMDV=1, VISITCOND=1, workers=16, must_reach=["entered", "replayed", "same-options", "entering-call-failed"]),
                   _world("VHRestoreReplay", DEPTH=0, LAST=0, STEPS=3, BUDGET=2, CLAUSES=1, JUMPCAT=1, OPTJUMP=1, CMDV=1, VISITCOND=1, workers=16, must_reach=["entered", "replayed", "same-options", "entering-call-failed"]),
@@ -505,8 +508,11 @@ CHECKS["C02"]["claim"] += _LISTENER_NOTE + (" Expressions: every parse-tree shap
                                             "mapping, operand order and nesting.")
 CHECKS["C01"]["instances"]["quick"] += [_ls("VHStatementListener", DEPTH=1, NODELEN=1, must_reach=["dialogue"]),
                                         _ls("VHStatementListener", DEPTH=0, NODELEN=2, must_reach=["dialogue"]),
-                                        _ls("VHStatementListener", DEPTH=0, NODELEN=1, NODES=2, must_reach=["dialogue"])]
+                                        _ls("VHStatementListener", DEPTH=0, NODELEN=1, NODES=2, must_reach=["dialogue"]),
+                                        # if chains nested in the clauses of if chains (any clause, with clauses following), lines elsewhere
+                                        _ls("VHStatementListener", DEPTH=2, NODELEN=1, IFONLY=1, ELSEIF=0, must_reach=["dialogue"])]
 CHECKS["C01"]["instances"]["thorough"] += [_ls("VHStatementListener", DEPTH=1, NODELEN=1, must_reach=["dialogue"]),
+                                           _ls("VHStatementListener", DEPTH=2, NODELEN=1, IFONLY=1, ELSEIF=0, must_reach=["dialogue"]),
                                            _ls("VHStatementListener", DEPTH=0, NODELEN=2, must_reach=["dialogue"]),
                                         _ls("VHStatementListener", DEPTH=0, NODELEN=1, NODES=2, must_reach=["dialogue"]),
                                            _ls("VHStatementListener", DEPTH=2, NODELEN=1, OPTS=1, ELSEIF=0, workers=16, must_reach=["dialogue"]),
